@@ -111,6 +111,16 @@ static void blk_encrypt(void) {
 	for (int li = 0; li < 7; li++) { if (!vh_next()) continue; size_t n = CLEN[li], ml = 0; int r = cms_set_data(MSG, &ml, CONTENT, n); vh_eval(vh_mix(n + 71)); int ct; const uint8_t *c; size_t cl; const uint8_t *cp = MSG; size_t il = ml; if (r != 1) { if (n) vh_viol("C16:set_data:refused", "\"len\":%zu", n); continue; } if (cms_content_info_from_der(&ct, &c, &cl, &cp, &il) != 1 || ct != OID_cms_data || il || !content_matches(ct, c, cl, CONTENT, n)) vh_viol("C16:set_data:roundtrip", "\"len\":%zu", n); }
 }
 static void blk_sign_envelop(void) {
+	/* realistic certificates: six-field issuer names, 20-octet serial numbers - the RecipientInfo of each recipient is then about 270 octets instead of 230 */
+	if (vh_block_begin("realistic-names")) { static uint8_t rcert[NP][1400]; static size_t rcl[NP]; uint8_t inm[256], snm[256]; size_t inl = 0, snl = 0; x509_name_set(inm, &inl, sizeof inm, "CN", "Beijing Municipality", "Haidian District", "Example Certification Authority Ltd", "Department of Secure Messaging", "Example Issuing CA for Recipients G2");
+		for (int i = 0; i < NP; i++) { char cn[40]; snprintf(cn, sizeof cn, "recipient-%d.mail.example.cn", i); snl = 0; x509_name_set(snm, &snl, sizeof snm, "CN", "Beijing Municipality", NULL, "Example Organisation", NULL, cn); uint8_t ser[20]; for (int k = 0; k < 20; k++) ser[k] = (uint8_t)(0x21 + 7 * k + i); ser[0] = 0x5a; uint8_t ex[64]; size_t el = 0; x509_exts_add_key_usage(ex, &el, sizeof ex, X509_critical, X509_KU_KEY_ENCIPHERMENT); uint8_t *p = rcert[i]; rcl[i] = 0; venv_reset(8800 + i);
+			if (x509_cert_sign_to_der(X509_version_v3, ser, 20, OID_sm2sign_with_sm3, inm, inl, VENV_NOW - 1000, VENV_NOW + 86400 * 365, snm, snl, &CK[4 + i], NULL, 0, NULL, 0, ex, el, &CK[8], SM2_DEFAULT_ID, SM2_DEFAULT_ID_LENGTH, &p, &rcl[i]) != 1) vh_harness_error("realistic cert"); }
+		for (int nr_ = 1; nr_ <= NP; nr_++) for (int mode = 0; mode < 2; mode++) { if (!vh_next()) continue; static uint8_t rc[6000]; size_t rcll = 0; for (int i = 0; i < nr_; i++) { memcpy(rc + rcll, rcert[i], rcl[i]); rcll += rcl[i]; } size_t ml = 0, n = 100; venv_reset(8900 + nr_ * 2 + mode); CMS_CERTS_AND_KEY sg = { SCERT[0], SCL[0], &SKEY[0][0] }; char key[160]; vh_eval(vh_mix(nr_ * 2 + mode + 8801));
+			int r = mode ? cms_sign_and_envelop(MSG, &ml, &sg, 1, rc, rcll, OID_sm4_cbc, SK, 16, IV, 16, OID_cms_data, CONTENT, n, NULL, 0, NULL, 0, NULL, 0) : cms_envelop(MSG, &ml, rc, rcll, OID_sm4_cbc, SK, 16, IV, 16, OID_cms_data, CONTENT, n, NULL, 0, NULL, 0);
+			if (r != 1) { snprintf(key, sizeof key, "C16:%s:refused:recipients=%d-with-six-field-issuer-names", mode ? "sign-and-envelop" : "envelop", nr_); vh_viol(key, "\"recipients\":%d,\"issuer_name_octets\":%zu,\"ret\":%d", nr_, inl, r); continue; }
+			for (int i = 0; i < nr_; i++) { int ct; size_t ol = 0; const uint8_t *ri, *si, *sc, *scr, *s1, *s2; size_t ril, sil, scl, scrl, s1l, s2l; memset(OUT, 0xEE, n + 32); r = mode ? cms_deenvelop_and_verify(MSG, ml, &RKEY[i][0], rcert[i], rcl[i], NULL, 0, NULL, 0, &ct, OUT, &ol, &ri, &ril, &si, &sil, &sc, &scl, &scr, &scrl, &s1, &s1l, &s2, &s2l) : cms_deenvelop(MSG, ml, &RKEY[i][0], rcert[i], rcl[i], &ct, OUT, &ol, &ri, &ril, &s1, &s1l, &s2, &s2l);
+				if (r != 1 || ol != n || memcmp(OUT, CONTENT, n)) { snprintf(key, sizeof key, "C16:%s:realistic-names:recipient-cannot-open", mode ? "sign-and-envelop" : "envelop"); vh_viol(key, "\"recipients\":%d,\"recipient\":%d,\"ret\":%d", nr_, i, r); } }
+			vh_sample("{\"block\":\"realistic-names\",\"mode\":\"%s\",\"recipients\":%d,\"cms_len\":%zu}", mode ? "sign-and-envelop" : "envelop", nr_, ml); } }
 	if (!vh_block_begin("sign-and-envelop")) return;
 	/* structurally valid SignedAndEnvelopedData with zero SignerInfos, taken from a genuine one-signer one-recipient message: the SignerInfos SET emptied, and the field left out
 	   altogether; the recipient must not get "verified" for either (sanity: the same rebuild with the original SignerInfos still opens and verifies) */
